@@ -12,6 +12,8 @@ import (
 	sdk "github.com/cosmos/cosmos-sdk/types"
 	banktypes "github.com/cosmos/cosmos-sdk/x/bank/types"
 	govtypes "github.com/cosmos/cosmos-sdk/x/gov/types"
+	"github.com/cosmos/cosmos-sdk/x/upgrade"
+	upgradetypes "github.com/cosmos/cosmos-sdk/x/upgrade/types"
 	"github.com/ethereum/go-ethereum/common"
 	gethtypes "github.com/ethereum/go-ethereum/core/types"
 	abci "github.com/tendermint/tendermint/abci/types"
@@ -220,6 +222,16 @@ func runScenario(ch Chooser, steps int, prof nodeProfile) (trace []string, kinds
 	s.voteProposals()
 	for i := 0; i < 4; i++ {
 		w.Tick()
+	}
+	// a third of the scripts end with the chain's software upgrade "v0.2" (app/upgrades.go): scheduled the way a passed
+	// SoftwareUpgradeProposal schedules it and executed by the upgrade module in the next BeginBlock. It comes last because
+	// the handler resets the xibc module's state.
+	if ch.Intn("finalUpgrade", 3) == 0 {
+		plan := upgradetypes.Plan{Name: "v0.2", Height: c0.Header.Height + 1, Info: "scripted"}
+		kit.Must(upgrade.NewSoftwareUpgradeProposalHandler(c0.App.UpgradeKeeper)(c0.Ctx(), upgradetypes.NewSoftwareUpgradeProposal("t", "d", plan)), "schedule upgrade v0.2")
+		s.kind("upgrade:v0.2")
+		c0.Commit(bridge.BlockDT)
+		c0.Commit(bridge.BlockDT)
 	}
 	return trace, s.kinds
 }
